@@ -6,10 +6,10 @@ mkdir -p /tmp/seedall
 one() {
   d=$1; id=$(basename $d); prop=${id%%-*}
   p=$d/patch.current.diff; [ -f $p ] || p=$d/patch.diff
-  /verif/tools/seedrun_par.sh $p $prop $TIER > /tmp/seedall/$id.log 2>&1; rc=$?
+  /verif/tools/seedrun_par.sh $p $prop $TIER ${SEEDNO:-1} > /tmp/seedall/$id.log 2>&1; rc=$?
   na=""; grep -q 'patch does not apply' /tmp/seedall/$id.log && na=" PATCH-DOES-NOT-APPLY"
   echo "$id exit=$rc violations=$(grep -c '^VIOLATION' /tmp/seedall/$id.log)$na"
 }
 export -f one
-export TIER
+export TIER SEEDNO
 ls -d /verif/seeded/C*-* | xargs -P $JOBS -I{} bash -c 'one {}'
